@@ -26,12 +26,13 @@ type sOp struct {
 	DLen int64  `json:"dlen,omitempty"` // data length: 0 = Cnt, -1 = empty, else explicit
 	Pat  byte   `json:"pat,omitempty"`
 	Size uint64 `json:"size,omitempty"`
+	St   int    `json:"st,omitempty"` // WRITE stability requested: 0 FILE_SYNC (default), 1 DATA_SYNC, 2 UNSTABLE
 }
 
 func (o sOp) String() string {
 	switch o.K {
 	case "WRITE":
-		return fmt.Sprintf("WRITE(%d,off=%d,cnt=%d,dlen=%d,pat=%#x)", o.Ino, o.Off, o.Cnt, o.dlen(), o.Pat)
+		return fmt.Sprintf("WRITE(%d,off=%d,cnt=%d,dlen=%d,pat=%#x,st=%d)", o.Ino, o.Off, o.Cnt, o.dlen(), o.Pat, o.St)
 	case "READ":
 		return fmt.Sprintf("READ(%d,off=%d,cnt=%d)", o.Ino, o.Off, o.Cnt)
 	case "SETATTR":
@@ -185,7 +186,7 @@ func sDo(srv *simple.Nfs, o sOp) sOut {
 		}
 		return sOut{OK: true, Data: string(r.Resok.Data), Count: uint32(r.Resok.Count), Eof: r.Resok.Eof}
 	case "WRITE":
-		r := srv.NFSPROC3_WRITE(nfstypes.WRITE3args{File: sFh(o.Ino), Offset: nfstypes.Offset3(o.Off), Count: nfstypes.Count3(o.Cnt), Stable: nfstypes.FILE_SYNC, Data: o.data()})
+		r := srv.NFSPROC3_WRITE(nfstypes.WRITE3args{File: sFh(o.Ino), Offset: nfstypes.Offset3(o.Off), Count: nfstypes.Count3(o.Cnt), Stable: []nfstypes.Stable_how{nfstypes.FILE_SYNC, nfstypes.DATA_SYNC, nfstypes.UNSTABLE}[o.St], Data: o.data()})
 		if r.Status != 0 {
 			return sOut{}
 		}
@@ -489,6 +490,8 @@ func C17(r *report.Report, tier string) {
 	rec(nil, depth)
 	// crash histories over successful mutations (from non-initial states too)
 	mut2 := append([]sOp{}, mut...)
+	// the simple server acknowledges every write as FILE_SYNC, whatever stability was asked for
+	mut2 = append(mut2, sOp{K: "WRITE", Ino: 2, Off: 0, Cnt: 100, Pat: 0x55, St: 2}, sOp{K: "WRITE", Ino: 2, Off: 50, Cnt: 4046, Pat: 0x57, St: 1})
 	mut2 = append(mut2, sOp{K: "WRITE", Ino: 2, Off: 100, Cnt: 100, Pat: 0x51}, sOp{K: "WRITE", Ino: 3, Off: 0, Cnt: 4096, Pat: 0x53}, sOp{K: "SETATTR", Ino: 2, Size: 50})
 	var crec func(p []sOp, d int)
 	crec = func(p []sOp, d int) {
